@@ -481,10 +481,12 @@ PROPS = {
                        "the predicate only",
     },
     "C10": {
-        "modules": ["Stun.Properties.C10", "Stun.Properties.C10L2"],
+        "modules": ["Stun.Properties.C10", "Stun.Properties.C10L2", "Stun.Proofs.ClientSync"],
         "theorems": ["Stun.C10.handler_at_most_once", "Stun.C10.never_started_never_invoked",
-                     "Stun.C10.start_error_not_registered", "Stun.C10.invoked_xor_pending",
-                     "Stun.C10.closed_no_invocation", "Stun.C10L2.step2_l1", "Stun.C10L2.run2_l1", "Stun.C10L2.k1_history",
+                     "Stun.C10.start_error_not_registered", "Stun.C10.start_error_never_registers",
+                     "Stun.C10.invoked_xor_pending", "Stun.C10.closed_callback", "Stun.C10.exactly_once_by_close",
+                     "Stun.C10.close_leaves_nothing_registered", "Stun.C10.tables_synchronised",
+                     "Stun.ClientProofs.run_sinv", "Stun.ClientProofs.close_clears", "Stun.ClientProofs.callback_sync", "Stun.C10L2.step2_l1", "Stun.C10L2.run2_l1", "Stun.C10L2.k1_history",
                      "Stun.C10L2.k1_history_other_start_untouched", "Stun.C10L2.blocked_write_failure_alone",
                      "Stun.C10L2.f12_start_error_after_handler_ran", "Stun.C10L2.start_blocked_failure_alone",
                      "Stun.C10L2.k1b_history", "Stun.C10L2.agent_start_failure_alone", "Stun.C10L2.agent_start_ok_alone",
@@ -495,10 +497,8 @@ PROPS = {
         "tagsets": [["verif"], ["verif", "race"]],
         "rule": CLIENT_RULE + "; Client.Do with the response handled while Start is still inside Write and a callback that "
                 "takes 10 ms: Do must return, and only after the callback finished",
-        "explanation": "full statement (exactly once, with a closed error on Close) is false on the unchanged tree: known "
-                       "findings F6 (Close in flight) and F12 (Start returns an error after the handler ran, when the "
-                       "response overtakes a failing first Write); proved: at most once, never unstarted, exactly-once-or-still-registered. "
-                       "Interleavings inside one event (L2, known finding K1) are not expressible at this level.",
+        "explanation": "the full statement is a theorem at L1 (exactly_once_by_close); at L2 the clause 'if Start returns an "
+                       "error the handler is never invoked' fails on one schedule (known finding F12, theorem + replay)",
     },
     "C11": {
         "modules": ["Stun.Properties.C11", "Stun.Properties.C10L2"],
